@@ -40,15 +40,6 @@ def disk_mask(N):
     return (X * X + Y * Y) <= 1.0
 
 
-def disk_mask_sqrt(N):
-    """The same disk decided on sqrt(x^2 + y^2) <= 1: mathematically identical, but the rounded
-    square root maps 1 + 2^-52 to 1, so points like (0.6, 0.8) flip.  Only used to *predict*
-    where an implementation that mixes the two spellings is inconsistent with itself."""
-    x = np.linspace(-1.0, 1.0, int(N))
-    X, Y = np.meshgrid(x, x)
-    return np.sqrt(X * X + Y * Y) <= 1.0
-
-
 def pupil_from_samples(W, I, N):
     """-> (P, A, mask): complex pupil A exp(+i 2 pi W) and its amplitude A = sqrt(I) on the N x N grid.
     Raises ValueError when the number of samples is not the number of grid points in the disk."""
@@ -127,12 +118,6 @@ def psf_oracle(P, A, M):
 def parseval_total(A, M):
     """Closed form of sum(PSF) in the statement's normalisation (Parseval): 100 M^2 sum A^2 / (sum A)^2."""
     return 100.0 * float(M) ** 2 * float((A * A).sum()) / float(A.sum()) ** 2
-
-
-def padded_size_symmetric_floor(N, grid):
-    """Side of the array produced by padding floor((grid - N)/2) zeros on *both* sides
-    (the mechanism `psf-odd-padding`: grid - 1 when grid - N is odd)."""
-    return int(N) + 2 * ((int(grid) - int(N)) // 2)
 
 
 # ---------------------------------------------------------------------------
